@@ -53,6 +53,9 @@ func c04store(ev *verifev.Run, root string, def uint) {
 		{"carl", "carl-2"}, {"admin1", "adm"}, {"tnul", "tail\x00"}, {"tlf", "line\n"},
 		// the same word in two encodings, and bytes that are text in no encoding
 		{"latin", "caf\xe9"}, {"utf", "caf\u00e9"}, {"binpw", "\xff\xfe\x80binary"},
+		// long passwords: no transport except saslauthd has a length limit (1 KiB, 5 KiB, and one whose
+		// JSON encoding is twice its size)
+		{"long1k", long(1100, "k")}, {"long5k", long(5000, "m")}, {"quotes", long(300, "\"\\")},
 	}
 	for _, u := range users {
 		must(lib.AddUser(u.name, u.pw, u.name == "admin1"))
@@ -65,7 +68,7 @@ func c04store(ev *verifev.Run, root string, def uint) {
 	// unsupported and unreadable records (internal error => denial on every frontend)
 	must(os.WriteFile(filepath.Join(dir, "dora.user"), []byte("argon2id:1:77:AAAA:AAAA\n"), 0600))
 	must(os.Mkdir(filepath.Join(dir, "edir.user"), 0700))
-	names := []string{"bob", "Bob", "bob ", "BOB", "nob", "bob@realm", "al@x.org", "al", "al@x.org@corp", "bob@a@b", "al@x.org@", "@bob", "bob@", "@", "al@@x.org", "dora", "edir", "colon", "colon2", "uni", "nul", "p255", "p256", "p257", "esc", "sp", "carl", "admin1", "", "tnul", "tlf", "latin", "utf", "binpw", "bob\x00", "bob\n", "\x00bob", "tnul\x00"}
+	names := []string{"bob", "Bob", "bob ", "BOB", "nob", "bob@realm", "al@x.org", "al", "al@x.org@corp", "bob@a@b", "al@x.org@", "@bob", "bob@", "@", "al@@x.org", "dora", "edir", "colon", "colon2", "uni", "nul", "p255", "p256", "p257", "esc", "sp", "carl", "admin1", "", "tnul", "tlf", "latin", "utf", "binpw", "long1k", "long5k", "quotes", "bob\x00", "bob\n", "\x00bob", "tnul\x00"}
 	var pws []string
 	seen := map[string]bool{}
 	addpw := func(p string) {
